@@ -37,5 +37,6 @@ json.dump({'property': prop, 'id': sid,
                             'demo.py on the changed copy', f'VERIF_REPO=<copy> harness/check.py {prop} (quick; drift sensor on)']},
           open(f'/verif/seeded/{sid}/meta.json', 'w'), indent=1)
 PY
+/venv/bin/python /verif/harness/regen.py "$PROP" >/dev/null 2>&1
 rm -rf "$D"
 echo "$ID: demo_clean=$DEMO_CLEAN tests='$TESTS' demo_changed=$DEMO_CHANGED caught=$RC :: $REPLAY"
